@@ -1226,7 +1226,7 @@ NSHARDS = 32
 REQUIRED = ["encrypt|engine", "encrypt|server", "mac|engine", "mac|server", "derive|engine",
             "derive|server", "wrap|engine", "wrap|server", "sign|engine", "sign|server",
             "create|engine", "create|server", "create-key-pair|engine", "create-key-pair|server",
-            "rsa-encrypt|engine"]
+            "rsa-encrypt|engine", "encrypt-gcm|engine", "encrypt-gcm|server"]
 
 
 def _order(cells):
@@ -1284,6 +1284,8 @@ def worker(tier, seed, shard, nshards, rounds, nfree):
             classes.append("%s|%s|%s" % (out.op, out.mech, out.lvl))
             tuples.add("%s|%s|%s|%s" % (out.op, out.mech, out.lvl, out.tuple_extra))
             col.bump("judged|%s|%s" % (out.op, out.lvl))
+            if out.op == "encrypt" and "-GCM-" in out.mech:
+                col.bump("judged|encrypt-gcm|%s" % out.lvl)
         else:
             col.bump("not_judged")
         col.record(spec, nontrivial=out.judged, classes=classes, buckets=buckets)
